@@ -52,6 +52,16 @@ CLAIMED = {
         note="disk replaced by an in-memory table; one source spelling per link kind; default recursion limit; 20 s budget per graph",
         ref="DESIGN.md section 5 C20",
     ),
+    "C09": dict(
+        text="(P3/P4) the (document,line) pair is a symbolic index forked by the solver; for it every column 0..len+1 x 9 positional "
+             "methods go through the real server over an in-memory workspace (construct-rich, broken, preprocessed, top-level, "
+             "fixed-form, tiny documents; one line per bundled intrinsic/keyword; test/test_source in thorough): protocol-shaped "
+             "result or null, never an error, every location/edit/diagnostic range inside its document. (P2) genuinely symbolic: "
+             "get_line_prefix / get_paren_level / find_paren_match on free short strings, the range templates for all non-negative ints.",
+        note="sweep paths run concretely (NoTracing): enumeration of a bounded (document,line) space by solver forking, not reasoning "
+             "about the handlers; sample documents only; in-memory disk; CrossHair+z3 trusted",
+        ref="DESIGN.md section 5 C09",
+    ),
 }
 
 NOT_APPLICABLE = {
